@@ -64,6 +64,24 @@ pub fn generate(g: &mut Gen) {
             g.push(format!("t.mean {} 2 {} {}", qt(&a), qt(&b), qt(&c)), Tol::Exact, "mismatch/mean", true);
         }
     }
+    // long extents (longer than any block a vectorised loop might use, and not a multiple of it) in every position of
+    // every rank: every element of the result is the operation on its own pair
+    let long: Vec<Shape> = vec![Shape::Single(8), Shape::Single(9), Shape::Single(11), Shape::Single(15), Shape::Single(16), Shape::Single(17), Shape::Single(23),
+        Shape::Single(33), Shape::Single(40), Shape::Single(65), Shape::Double(2, 9), Shape::Double(9, 2), Shape::Double(1, 17), Shape::Double(17, 1),
+        Shape::Triple(1, 2, 9), Shape::Triple(2, 9, 1), Shape::Triple(9, 1, 2), Shape::Triple(1, 1, 19), Shape::Quadruple(1, 1, 2, 9), Shape::Quadruple(1, 1, 9, 2),
+        Shape::Quadruple(2, 1, 1, 11), Shape::Quadruple(9, 1, 2, 1), Shape::Quadruple(1, 10, 1, 1)];
+    for s in &long {
+        let rank = match s { Shape::Single(_) => "1d", Shape::Double(..) => "2d", Shape::Triple(..) => "3d", _ => "4d" };
+        let a = g.tensor_of(s, false);
+        let b = g.tensor_of(s, false);
+        binops(g, &a, &b, &format!("long/{}", rank), true);
+        let sc = g.val(false);
+        g.push(format!("t.divs {} {}", qt(&a), hx(sc)), Tol::Exact, &format!("divscalar/long/{}", rank), true);
+        let o = g.tensor_of(s, false);
+        g.push(format!("t.mean {} 1 {}", qt(&a), qt(&b)), Tol::Exact, &format!("mean/long/{}/k1", rank), true);
+        g.push(format!("t.mean {} 2 {} {}", qt(&a), qt(&b), qt(&o)), Tol::Tight, &format!("mean/long/{}/k2", rank), true);
+        g.push(format!("t.clamp {} {} {}", qt(&a), hx(-0.5), hx(0.75)), Tol::Exact, &format!("clamp/long/{}", rank), true);
+    }
     // mean with no others is refused
     let a = g.tensor_of(&Shape::Single(3), false);
     g.push(format!("t.mean {} 0", qt(&a)), Tol::Exact, "mean/empty", true);
